@@ -452,4 +452,45 @@ def run(ctx, prog, res):
     r6.floor(6)
 
     # W --------------------------------------------------------------------------------------
+    # R7 -------------------------------------------------------------------------------------
+    r7 = res.rule("C15.R7", "bit positions of a month: day d is bit d-1; contains(d) <=> d is a member, first() is the least member, first_after(d) the least member strictly after d, count() the number of members. CompactMonth's four lookups are extracted per path from MIR (peval) and evaluated for every day 1..=31 on the empty month, the full month, every single-day month and every two-day month (quick tier: adjacent pairs only) - exhaustive in the day, all bit positions covered, months with three or more days only through the full month")
+    import itertools
+    import peval
+    CMP = "compact_calendar::CompactMonth::"
+    fns7 = {n: prog.fns.get(CMP + n) for n in ("contains", "first", "first_after", "count")}
+    if None in fns7.values():
+        r7.anchor_missing("CompactMonth::{contains, first, first_after, count}")
+    else:
+        ev = peval.Evaluator(prog)
+        thorough = ctx.tier == "thorough"
+        sets = [(), tuple(range(1, 32))] + [(d,) for d in range(1, 32)] + ([p for p in itertools.combinations(range(1, 32), 2)] if thorough else [(d, d + 1) for d in range(1, 31)])
+        bad = {}
+        n_ev = 0
+        try:
+            for S in sets:
+                bits = sum(1 << (d - 1) for d in S)
+                mval = ("tuple", [bits])
+                got = ev.run(fns7["first"], [mval]); n_ev += 1
+                want = min(S) if S else None
+                if (got[1] if got is not None else None) != want:
+                    bad.setdefault("first", "month %s: first() = %r (expected %r)" % (list(S), got, want))
+                got = ev.run(fns7["count"], [mval]); n_ev += 1
+                if got != len(S):
+                    bad.setdefault("count", "month %s: count() = %r (expected %d)" % (list(S), got, len(S)))
+                for d in range(1, 32):
+                    got = bool(ev.run(fns7["contains"], [mval, d])); n_ev += 1
+                    if got != (d in S):
+                        bad.setdefault("contains", "month %s: contains(%d) = %r" % (list(S), d, got))
+                    got = ev.run(fns7["first_after"], [mval, d]); n_ev += 1
+                    want = min([e for e in S if e > d], default=None)
+                    if (got[1] if got is not None else None) != want:
+                        bad.setdefault("first_after", "month %s: first_after(%d) = %r (expected %r)" % (list(S), d, got, want))
+        except peval.Unmodelled as ex:
+            r7.fail("C15.R7:unmodelled", "CompactMonth's lookups cannot be evaluated from their MIR any more (%s): not decided, failing closed" % ex, lib.where_of(fns7["contains"]))
+            bad = None
+        if bad is not None:
+            for nm in ("contains", "first", "first_after", "count"):
+                r7.check(nm not in bad, {"fn": nm, "months": len(sets), "evaluations": n_ev}, "C15.R7:%s" % nm, "CompactMonth::%s" % bad.get(nm, ""), lib.where_of(fns7[nm]))
+    r7.floor(4)
+
     witness.run_doctests(ctx, prog, res, "C15.W", "the representation cannot be built or read from outside the crate; twins compile", "c15", floor=4)
